@@ -83,6 +83,9 @@ class Interp:
         self.captured = []  # frames captured by the fills currently being rendered (between frames + loop copies)
         self.last_read = None
         self.in_defaultref = 0
+        self.alias_stack = []  # alias bindings of the fills currently being rendered
+        self.loop_stack = []  # sites of the {% for %} loops on the evaluation stack
+        self.defaultref_envs = []  # environments of the {{ default-alias }} reads currently being expanded
         self.render_stack = []  # instances whose template is being evaluated (rendered structure)
         self.elem_roots = {}  # uid -> [instance numbers]
         self.elem_occ = []  # (uid, [instance numbers]) per rendered element, document order
@@ -116,6 +119,10 @@ class Interp:
             "in_fill": in_fill,
             "via_defaultref": self.in_defaultref > 0,
             "captured_sites": [(base(c[0]), c[1]) for c in self.captured],
+            "fill_aliases": {k: v for fr in self.alias_stack for k, v in fr.items() if isinstance(v, dict)},
+            # loops that dynamically enclose this read: on the evaluation stack, or captured for a fill being rendered
+            "dyn_loop_sites": sorted({str(x) for x in self.loop_stack} | {str(c[1]) for c in self.captured if base(c[0]) == "for"}),
+            "defaultref_env_cands": [(base(k), s) for e in self.defaultref_envs for k, s, vs in e if vs is not None and name in vs],
             # candidates incl. frames the statement does not order (so that a defect model can name them)
             "cands": [(base(k), s, any(fr is c for c in self.captured)) for fr in env for k, s, vs in [fr] if vs is not None and name in vs],
         }
@@ -143,7 +150,11 @@ class Interp:
             elif k == "for":
                 for idx, val in enumerate(self.loop_items(n[2], env, in_fill)):
                     fr = ("for", n[3] if len(n) > 4 else None, {n[1]: val})
-                    out += self.eval(n[-1], env + (fr,), owner, provs, top, depth, in_fill, slot_stack)
+                    self.loop_stack.append(fr[1])
+                    try:
+                        out += self.eval(n[-1], env + (fr,), owner, provs, top, depth, in_fill, slot_stack)
+                    finally:
+                        self.loop_stack.pop()
             elif k == "with":
                 val = self.resolve(n[2], env, "with", in_fill)
                 out += self.eval(n[3], env + (("with", n[4] if len(n) > 4 else None, {n[1]: val}),), owner, provs, top, depth, in_fill, slot_stack)
@@ -151,7 +162,24 @@ class Interp:
                 v, sel = lookup(env, n[1])
                 self.note_read(n[1], sel, env, in_fill)
                 self.var_tokens.append(dict(self.last_read, at=len(out)))
-                out.append(f"[{n[1]}={'' if v is MISSING else v}]")
+                if callable(v):
+                    # the name is a slot-default alias: {{ name }} renders the slot's own default content
+                    out.append(f"[{n[1]}=")
+                    self.in_defaultref += 1
+                    self.defaultref_envs.append(env)
+                    try:
+                        out += v()
+                    finally:
+                        self.defaultref_envs.pop()
+                        self.in_defaultref -= 1
+                    out.append("]")
+                elif isinstance(v, dict):
+                    # the name is a slot-data alias: Django prints the (auto-escaped) dict
+                    import html
+
+                    out.append(f"[{n[1]}={html.escape(str(v))}]")
+                else:
+                    out.append(f"[{n[1]}={'' if v is MISSING else v}]")
             elif k == "dataref":
                 v, sel = lookup(env, n[1])
                 val = v.get(n[2], "") if isinstance(v, dict) else ""
@@ -160,9 +188,11 @@ class Interp:
                 v, sel = lookup(env, n[1])
                 if callable(v):
                     self.in_defaultref += 1
+                    self.defaultref_envs.append(env)
                     try:
                         out += v()
                     finally:
+                        self.defaultref_envs.pop()
                         self.in_defaultref -= 1
             elif k == "probe":
                 if owner is None:
@@ -362,11 +392,14 @@ class Interp:
                 inner_data = (inst.tenv[-1],)
                 around_slot = tuple(("unspec-inner:" + fr[0].split(":")[-1], fr[1], fr[2]) for fr in env[len(inst.tenv):])
                 fenv = c.def_env + c.between + inner_data + around_slot + (alias_fr,)
-            cap = [fr for fr in c.def_env if fr[0].split(":")[-1] in ("for", "leak")] + list(c.between)
+            # (an implicit body has no {% fill %} tag, hence no captured layer)
+            cap = [] if c.site == "implicit" else [fr for fr in c.def_env if fr[0].split(":")[-1] in ("for", "leak")] + list(c.between)
             self.captured.extend(cap)
+            self.alias_stack.append(aliases)
             try:
                 return self.eval(c.body, fenv, c.lex_owner, provs, top, depth, True, slot_stack + ("fill",))
             finally:
+                self.alias_stack.pop()
                 del self.captured[len(self.captured) - len(cap) :]
         if flags.get("required"):
             raise Expected("TemplateSyntaxError", f"required slot '{name}' not filled")
